@@ -210,6 +210,133 @@ def chain(rng_or_none, depth, placements, keys, final):
     return t
 
 
+# --------------------------------------------------------------------------------------
+# inner hops that have to be cleaned: nested urls whose DECODED form is unclean
+# --------------------------------------------------------------------------------------
+# A hop's target is a percent-decoded value: it can hold characters of the cleaning class that
+# were invisible (escaped) one level up.  The property's fixed-point clause ("the recursive
+# result equals what repeated non-recursive application converges to") then says that the
+# recursion reads such a target the way a fresh call reads it: cleaned.  The class below is
+# derived from the running code (not from the model): the code points CONTROL_CHARS_RE removes
+# and the ones str.strip() removes.
+NAMED_CODES = [0x09, 0x0A, 0x0D, 0x00, 0x1F, 0x20, 0x7F, 0x85, 0x9F, 0xA0, 0x2028, 0x3000, 0xFEFF]
+_cleaning = None
+
+
+def _ranges(codes):
+    out = []
+    for c in sorted(codes):
+        if out and out[-1][1] == c - 1:
+            out[-1][1] = c
+        else:
+            out.append([c, c])
+    return out
+
+
+def cleaning_class():
+    """(removed anywhere, removed at the ends, boundary code points): re-derived on every run from
+    ural.patterns.CONTROL_CHARS_RE (one .sub over every code point) and str.strip()"""
+    global _cleaning
+    if _cleaning is None:
+        lib.ural()
+        import importlib
+
+        pat = importlib.import_module("ural.patterns").CONTROL_CHARS_RE
+        every = [c for c in range(0x110000) if not 0xD800 <= c <= 0xDFFF]
+        kept = set(map(ord, pat.sub("", "".join(map(chr, every)))))
+        control = set(every) - kept
+        space = set(c for c in every if not chr(c).strip())
+        bounds = []
+        for lo, hi in _ranges(control) + _ranges(space) + _ranges(control | space):
+            for c in (lo - 1, lo, hi, hi + 1):
+                if 0 <= c < 0x110000 and not 0xD800 <= c <= 0xDFFF and c not in bounds:
+                    bounds.append(c)
+        _cleaning = (control, space, bounds)
+    return _cleaning
+
+
+def inject_codes(tier):
+    """code points injected: quick = the named ones (TAB LF CR NUL 0x1F SP DEL NEL 0x9F NBSP LS U+3000, BOM as the
+    one that is NOT cleaned); thorough = also every boundary of the regenerated classes and its outer neighbour"""
+    control, space, bounds = cleaning_class()
+    codes = list(NAMED_CODES)
+    if tier != "quick":
+        codes += [c for c in bounds if c not in codes]
+    # whatever the class is today, one member of each kind must be there
+    for kind in (control - space, space - control, control & space):
+        if kind and not kind & set(codes):
+            codes.append(min(kind))
+    return codes
+
+
+# the url of the LAST BUT ONE hop: every way a hop finds its target (redirect key at each regex entry: '?', '&', '^';
+# absolute / relative / scheme-less / youtube / google-q targets; each cache host) and every way it declines
+# (q without /url?q=, target not shorter, unjoinable target): the positions of these strings are the places
+# where the next hop's regexes, substring tests and prefix tests look
+def inner_hops():
+    hs = [
+        "http://b.com/p?next=http://c.com/x",
+        "http://b.com/p?a=1&u=/home",
+        "b.com?url=/z",
+        "redirect_to=https://c.com/",
+        "https://www.youtube.com/redirect?q=c.com/x",
+        "http://b.com/url?q=http://c.com/",
+        "http://b.com/p?q=http://c.com/",
+        "http://x&l=/p",
+        "http://[x?goto=/p",
+        "//b.com/p?target=%2Fx%3Fl%3D%2Fy",
+    ]
+    for i, h in enumerate(CACHE_HOSTS[:5]):
+        hs.append(("https://", "http://x.", "")[i % 3] + h + ("c.com/x", "c.com/?link=/y", "")[i % 3])
+    return hs
+
+
+OUTER = [PLACEMENTS[0], PLACEMENTS[3], PLACEMENTS[12], PLACEMENTS[11], PLACEMENTS[9], PLACEMENTS[15]]
+OUTER_KEYS = ["url", "u", "q", "redirect_to", "next", "l"]
+
+
+def inject(h, pos, code):
+    return h[:pos] + chr(code) + h[pos:]
+
+
+def bury(inner, depth, i=0):
+    """`inner` as the target of a chain of `depth - 1` enclosing redirections, quoted once per level (safe=''):
+    nothing of `inner` is readable before the last enclosing hop has been followed and its value unquoted"""
+    t = inner
+    for lvl in range(depth - 1):
+        k = (i + lvl) % len(OUTER)
+        # a decoded value is followed when it starts with http(s):// or '/'; anything else only behind youtube.com/redirect?
+        pl = OUTER[k] if t.startswith(("http://", "https://", "/")) else PLACEMENTS[12]
+        t = pl % (OUTER_KEYS[k], _quote(t, safe=""))
+    return t
+
+
+def unclean_hops(tier):
+    """every inner hop x every position (before the scheme, inside it, inside '://', the host, the hint key, between
+    key and '=', inside the value, inside a cache host, at the end) x every injected code point, buried 1 level deep
+    (depth 2); depths 3 and 4 with a rotating code point (quick) / every code point (thorough)"""
+    codes = inject_codes(tier)
+    i = 0
+    for h in inner_hops():
+        for pos in range(len(h) + 1):
+            for j, code in enumerate(codes):
+                i += 1
+                yield bury(inject(h, pos, code), 2, i)
+                if tier != "quick":
+                    yield bury(inject(h, pos, code), 3, i)
+                    yield bury(inject(h, pos, code), 4, i)
+            if tier == "quick":
+                for depth in (3, 4):
+                    i += 1
+                    yield bury(inject(h, pos, codes[(pos + depth) % len(codes)]), depth, i)
+        # both ends at once, and two characters of different kinds side by side
+        for a in codes[:6]:
+            for b in codes[3:9]:
+                i += 1
+                yield bury(chr(a) + h + chr(b), 2 + i % 3, i)
+                yield bury(inject(h, len(h) // 2, a) + chr(b), 2 + i % 3, i)
+
+
 def cases(rng, tier):
     for u in CORPUS:
         yield {"url": u}
@@ -252,6 +379,9 @@ def cases(rng, tier):
     for h in CACHE_HOSTS[:3]:
         yield {"url": "https://" + h + "a.com/p?url=" + _quote("https://" + h + "b.com/x", safe="")}
         yield {"url": "http://a.com/?u=" + _quote("https://" + h + "b.com/?l=/q", safe="")}
+    # nested redirections whose decoded inner url is unclean where the next hop looks
+    for u in unclean_hops(tier):
+        yield {"url": u}
     # urljoin prelude
     jb = ["http://a.com/p/q?x#f", "http://a.com", "//a.com/p", "a.com/p", "custom://h/p", "http:///p", "HTTP://U:P@H:80/a/b;c", "http://[::1]/p", "http://[x/p",
           "/only/path", "", "ws://h/a/b/", "http://a.com/p;par/q;r", "svn+ssh://h/p"]
@@ -262,9 +392,22 @@ def cases(rng, tier):
     # seeded random compositions
     n = 30000 if tier == "quick" else 250000
     alphabet = "au=&?/%:.#2Fq@x[ é"
+    rcodes = inject_codes("thorough")
     for _ in range(n):
         r = rng.random()
-        if rng.random() < 0.1:
+        if rng.random() < 0.06:
+            # a random chain, one or two characters of the cleaning class injected into one of its levels before
+            # that level is quoted into the next one
+            d = rng.randint(2, 4)
+            lvl = rng.randint(0, d - 2)
+            t = rng.choice(TARGETS + finals)
+            for i in range(d):
+                t = rng.choice(PLACEMENTS) % (rng.choice(KEYS), _quote(t, safe=""))
+                if i == lvl:
+                    for _k in range(rng.randint(1, 2)):
+                        t = inject(t, rng.randint(0, len(t)), rng.choice(rcodes))
+            yield {"url": t}
+        elif rng.random() < 0.1:
             d = rng.randint(1, 3)
             yield {"url": wrap(chain(None, d, [rng.choice(PLACEMENTS) for _ in range(d)], [rng.choice(KEYS) for _ in range(d)],
                                      rng.choice(TARGETS + finals)), rng.randint(0, 1000))}
@@ -426,6 +569,7 @@ def classify(case):
     u = case["url"]
     s, r = _outcome(u)
     labs = []
+    unclean_hop = False
     if not isinstance(r, str):
         labs.append("outcome=error")
     elif r == u:
@@ -436,8 +580,14 @@ def classify(case):
             y = run_infer(x, False)
             if y == x or not isinstance(y, str):
                 break
+            if n and cleaned(x) != x:
+                unclean_hop = True
             x, n = y, n + 1
         labs.append("outcome=followed steps=%d" % min(n, 6))
+        if unclean_hop:
+            labs.append("unclean-inner-hop(followed)")
+        elif n and cleaned(x) != x:
+            labs.append("unclean-inner-hop(end)")
     if _CACHE.search(u):
         labs.append("cache-host")
     if cleaned(u) != u:
